@@ -957,8 +957,8 @@ func (pc *PartitionContext) allocate(result *objects.AllocationResult) *objects.
 			// a normal allocation has already been added to the application and the queue: take it out again
 			// unless the node removal found it on the node and has done that already
 			if result.ResultType == objects.Allocated || result.ResultType == objects.AllocatedReserved {
-				if app.RemoveAllocation(allocKey, si.TerminationType_UNKNOWN_TERMINATION_TYPE) != nil {
-					if err := app.GetQueue().DecAllocatedResource(alloc.GetAllocatedResource()); err != nil {
+				if queue := app.GetQueue(); queue != nil && app.RemoveAllocation(allocKey, si.TerminationType_UNKNOWN_TERMINATION_TYPE) != nil {
+					if err := queue.DecAllocatedResource(alloc.GetAllocatedResource()); err != nil {
 						log.Log(log.SchedPartition).Warn("Failed to unwind allocation: queue update failed",
 							zap.String("appID", appID),
 							zap.String("allocationKey", allocKey),
@@ -1056,8 +1056,10 @@ func (pc *PartitionContext) reserve(app *objects.Application, node *objects.Node
 		return
 	}
 
-	// add the reservation to the queue list
-	app.GetQueue().Reserve(appID)
+	// add the reservation to the queue list, an application that terminated in the meantime has left its queue
+	if queue := app.GetQueue(); queue != nil {
+		queue.Reserve(appID)
+	}
 	pc.incReservationCount()
 
 	log.Log(log.SchedPartition).Info("allocation ask is reserved",
@@ -1073,8 +1075,11 @@ func (pc *PartitionContext) unReserve(app *objects.Application, node *objects.No
 	// remove the reservation of the app, this will also unReserve the node
 	num := app.UnReserve(node, ask)
 	// remove the reservation of the queue
+	// an application that terminated in the meantime has left its queue
 	appID := app.ApplicationID
-	app.GetQueue().UnReserve(appID, num)
+	if queue := app.GetQueue(); queue != nil {
+		queue.UnReserve(appID, num)
+	}
 	pc.decReservationCount(num)
 
 	log.Log(log.SchedPartition).Info("allocation ask is unreserved",
